@@ -98,7 +98,11 @@ def compare(case, out, model):
         if abs(gt - tau) > Fraction(1, 256) * (1 + abs(tau)):
             return "param %d (%d chains x %d draws): implementation tau = M*N/ESS = %.6g, model tau = %.6g" % (
                 k, m, n, float(gt), float(tau))
-        if abs(Fraction(g) - E) > Fraction(1, 128) * (1 + abs(E)):
+        # the same agreement in terms of ESS = M*N/tau: an error d in tau moves ESS by M*N*d/tau^2, which is unbounded as
+        # tau -> 0 (strongly negatively correlated draws; thorough tier: tau = 1e-5 gave ESS 1.2e7 vs 1.5e7 — false alarm of
+        # a fixed relative tolerance)
+        d_tau = Fraction(1, 256) * (1 + abs(tau))
+        if abs(Fraction(g) - E) > Fraction(1, 128) * (1 + abs(E)) + Fraction(2 * m * h) * d_tau / (tau * tau):
             return "param %d (%d chains x %d draws): ESS %.6g, Model.Stats.ess = %.6g" % (k, m, n, g, float(E))
     if len(model) > 8 * p and model[8 * p] != 1:
         return "Q model: circular (FFT) autocovariance differs from the brute-force one"
